@@ -26,6 +26,7 @@ type Run struct {
 	Known      []Fail
 	curOp      string
 	curClass   string
+	cur        *os.File // the operation about to run: survives a crash of this process
 	extra      map[string]interface{}
 }
 
@@ -55,6 +56,7 @@ func NewRun(prop, tier string, seed int64, dir string) (*Run, error) {
 		hist: map[string]int{}, distinct: map[uint64]struct{}{}, nontrivial: map[uint64]struct{}{},
 		extra: map[string]interface{}{}}
 	fmt.Fprintf(r.ops, "#psa-verif 1 prop=%s tier=%s seed=%d\n", prop, tier, seed)
+	r.cur, _ = os.Create(filepath.Join(dir, "current.txt"))
 	return r, nil
 }
 
@@ -106,6 +108,17 @@ func (r *Run) ImplOnly(class string, trivial bool, op string) int {
 	return r.n
 }
 
+// About records the operation that is about to be executed against the implementation, so
+// that a fatal error (out of memory, stack overflow) which kills this process still names it.
+func (r *Run) About(op string) {
+	if r.cur == nil {
+		return
+	}
+	b := []byte(op + "\n")
+	r.cur.WriteAt(b, 0)
+	r.cur.Truncate(int64(len(b)))
+}
+
 // Fail records a violation of the property by the implementation on the current case.
 func (r *Run) Fail(clause, detail string) {
 	r.FailSig(clause, detail, "")
@@ -118,6 +131,10 @@ func (r *Run) FailSig(clause, detail, sig string) {
 }
 
 func (r *Run) Close() error {
+	if r.cur != nil {
+		r.cur.Close()
+		os.Remove(filepath.Join(r.dir, "current.txt"))
+	}
 	r.ops.Flush()
 	r.impl.Flush()
 	r.fo.Close()
